@@ -139,13 +139,97 @@ func purityCase(t *mon.T) {
 // call gives on freshly allocated objects. This is where state carried over
 // from an earlier call - stale inline words, caches keyed by object identity,
 // results that depend on an operand's previous content - becomes observable.
+// sameObjectHistory: one operation, one Context and one operand object whose
+// value is changed in place between calls (same sign, exponent and digit count,
+// heap-backed coefficient). Every call must equal the call on fresh objects.
+func sameObjectHistory(t *mon.T) {
+	r := t.Rng
+	ops := []string{"pow", "ln", "log10", "exp", "sqrt", "cbrt", "round", "mul", "quo", "add", "reduce", "quantize", "rtiv"}
+	op := ops[r.Intn(len(ops))]
+	c := gen.Context(r)
+	if c.P > 20 {
+		c.P = int64(1 + r.Intn(20))
+		if c.Emax < c.P {
+			c.Emax = c.P
+		}
+	}
+	ctx := br.Context(c, 0)
+	nd := int64(40 + r.Intn(30))
+	e := -(nd - 2)
+	if op == "exp" {
+		e = -(nd - 1) - int64(r.Intn(3))
+	}
+	obj := new(apd.Decimal)
+	yobj := new(apd.Decimal)
+	dst := new(apd.Decimal)
+	hist := []string{}
+	for step := 0; step < 5; step++ {
+		cf, _ := new(big.Int).SetString(gen.Digits(r, nd), 10)
+		x := dec.D{Form: dec.Finite, C: cf, E: e}
+		var y dec.D
+		var ay *apd.Decimal
+		switch op {
+		case "pow":
+			y = dec.D{Form: dec.Finite, C: big.NewInt(r.Range(1, 99)), E: -1 - int64(r.Intn(2))}
+		case "mul", "quo", "add":
+			y = dec.D{Form: dec.Finite, C: big.NewInt(r.Range(1, 99999)), E: r.Range(-3, 3)}
+		}
+		// in-place update of the same object: through arithmetic on its own
+		// coefficient, the way a program accumulates into a Decimal
+		if step == 0 {
+			br.SetApd(obj, x)
+		} else {
+			delta := new(big.Int).Sub(x.C, obj.Coeff.MathBigInt())
+			var db apd.BigInt
+			db.SetMathBigInt(delta)
+			obj.Coeff.Add(&obj.Coeff, &db)
+		}
+		if y.C != nil {
+			br.SetApd(yobj, y)
+			ay = yobj
+		}
+		hist = append(hist, fmt.Sprintf("%s(%s,%s)", op, x.String(), fmt.Sprint(y)))
+		res, err := callOn(op, ctx, dst, obj, ay, 0)
+		got := Outcome{Res: br.FromApd(dst), Flags: res, Err: err, Raw: dst}
+		want, _, _ := CallAliased(op, ctx, x, y, 0, AliasDistinct, nil)
+		t.EvalN(2)
+		t.Count("history/" + op)
+		if why := compareOutcomes(op, want, got); why != "" {
+			d := detail(op, c, x, y, got, why)
+			d["history"] = hist
+			d["fresh_objects"] = meaningful(want.Res) + " [" + br.FlagNames(want.Flags) + "]"
+			t.Fail("outcome-depends-on-history", d)
+			return
+		}
+	}
+	t.Nontrivial(fmt.Sprint(hist))
+}
+
 func reuseCase(t *mon.T) {
 	r := t.Rng
+	if r.Chance(1, 3) {
+		sameObjectHistory(t)
+		return
+	}
 	objs := []*apd.Decimal{new(apd.Decimal), new(apd.Decimal), new(apd.Decimal)}
 	dst := new(apd.Decimal)
 	hist := []string{}
+	longOps := r.Chance(1, 3)
 	for step := 0; step < 10; step++ {
 		op, c, x, y, aux := opOperands(r)
+		if longOps && x.Form == dec.Finite && x.C.Sign() != 0 {
+			// heap-backed coefficients (>= 39 digits) that keep their sign and
+			// exponent across the history: the in-place overwrite below then reuses
+			// the operand's storage, which is what identity-keyed caches mistake
+			// for "the same value"
+			if op == "pow" || op == "exp" || op == "ln" || op == "log10" || op == "sqrt" || op == "cbrt" || op == "round" || op == "mul" || op == "quo" {
+				cf, _ := new(big.Int).SetString(gen.Digits(r, int64(40+r.Intn(30))), 10)
+				x = dec.D{Form: dec.Finite, Neg: false, C: cf, E: -38}
+				if op == "pow" {
+					y = dec.D{Form: dec.Finite, C: big.NewInt(r.Range(1, 99)), E: -1 - int64(r.Intn(2))}
+				}
+			}
+		}
 		traps := randomTraps(r)
 		ctx := br.Context(c, traps)
 		xi, yi := r.Intn(3), r.Intn(3)
